@@ -99,8 +99,12 @@ def gen_bound(rng):
     elif r < 0.4:
         bnd.append([around(rng, src, lo=(times or [T0 + 1])[-1]), ["E", "b0"]])
     d, dw = gen_dispose(rng, src + bnd)
-    return {"op": "win_bound", "src": src, "bnd": bnd, "bfirst": rng.random() < 0.5, "dispose": d, "dw": dw,
-            "cold": rng.random() < 0.25}
+    c = {"op": "win_bound", "src": src, "bnd": bnd, "bfirst": rng.random() < 0.5, "dispose": d, "dw": dw,
+         "cold": rng.random() < 0.25}
+    if rng.random() < 0.12:
+        c["bsync"] = rng.choice(["N", "N", "C", ["E", "b1"]])     # boundaries delivering inside their own subscribe
+        c["bnd"] = []
+    return c
 
 
 def gen_closing(rng, src, after):
@@ -122,7 +126,14 @@ def gen_closing(rng, src, after):
 def gen_when(rng):
     src = gen_src(rng)
     closings, after = [], T0
-    for _ in range(rng.choice([0, 1, 2, 3, 4])):
+    for _ in range(rng.choice([0, 1, 2, 3, 4, 5])):
+        if rng.random() < 0.22:
+            # fires inside its own subscribe: empty() / BehaviorSubject(v) / throw(e)
+            r = rng.random()
+            closings.append({"sync": ["C"] if r < 0.5 else ["N", 0] if r < 0.88 else ["E", f"c{rng.randrange(3)}"]})
+            if closings[-1]["sync"][0] == "E":
+                break
+            continue
         tl, fired = gen_closing(rng, src, after)
         closings.append(tl)
         if fired is None:
@@ -131,7 +142,7 @@ def gen_when(rng):
     order = list(range(len(closings) + 1))
     if rng.random() < 0.5:
         rng.shuffle(order)
-    d, dw = gen_dispose(rng, src + [m for c in closings for m in c])
+    d, dw = gen_dispose(rng, src + [m for c in closings if not isinstance(c, dict) for m in c])
     return {"op": "win_when", "src": src, "closings": closings, "order": order,
             "raise_at": rng.choice([None] * 6 + [0, 1, 2]), "dispose": d, "dw": dw, "cold": rng.random() < 0.2}
 
@@ -149,6 +160,10 @@ def gen_toggle(rng):
     for t in times:
         if rng.random() < 0.1:
             break    # pool exhausted: never()
+        if rng.random() < 0.15:
+            r = rng.random()
+            closings.append({"sync": ["C"] if r < 0.5 else ["N", 0] if r < 0.9 else ["E", f"c{rng.randrange(3)}"]})
+            continue
         closings.append(gen_closing(rng, src, t)[0])
     order = list(range(len(closings) + 2))
     if rng.random() < 0.5:
@@ -208,6 +223,8 @@ def timelines_of(case):
     op = case["op"]
     tl = {}
     if op == "win_bound":
+        if case.get("bsync") is not None:
+            return {"0": case["src"]}       # the boundaries observable delivers inside its own subscribe: no hot timeline
         names = ["1", "0"] if case.get("bfirst") else ["0", "1"]
         for k in names:
             tl[k] = case["src"] if k == "0" else case["bnd"]
@@ -215,11 +232,15 @@ def timelines_of(case):
     if op == "win_when":
         order = case.get("order") or list(range(len(case["closings"]) + 1))
         for k in order:
+            if k > 0 and isinstance(case["closings"][k - 1], dict):
+                continue      # a closing that fires inside its own subscribe: not a hot timeline
             tl[str(k)] = case["src"] if k == 0 else case["closings"][k - 1]
         return tl
     if op == "win_toggle":
         order = case.get("order") or list(range(len(case["closings"]) + 2))
         for k in order:
+            if k >= 2 and isinstance(case["closings"][k - 2], dict):
+                continue
             tl[str(k)] = case["src"] if k == 0 else case["openings"] if k == 1 else case["closings"][k - 2]
         return tl
     return {"0": case["src"]}
@@ -234,8 +255,20 @@ def build(case, hots, sched, buffer):
     if op == "win_count":
         f = ops.buffer_with_count if buffer else ops.window_with_count
         return src.pipe(f(case["count"], case["skip"]))
+    def sync_obs(n):
+        """an observable that delivers `n` inside its own subscribe (and then stays silent)"""
+        if n[0] == "C":
+            return rx.empty()
+        if n[0] == "E":
+            return rx.throw(InjectedError(n[1]))
+        from reactivex.subject import BehaviorSubject
+        return BehaviorSubject(fw.dec(n[1]) if len(n) > 1 else 0)
+
     if op == "win_bound":
         f = ops.buffer if buffer else ops.window
+        bs = case.get("bsync")
+        if bs is not None:
+            return src.pipe(f(sync_obs(["N", 0] if bs == "N" else ["C"] if bs == "C" else bs)))
         return src.pipe(f(hots["1"]))
     if op == "win_when":
         calls = [0]
@@ -245,6 +278,14 @@ def build(case, hots, sched, buffer):
             calls[0] += 1
             if case.get("raise_at") == k:
                 raise InjectedError(f"cm{k}")
+            if k < len(case["closings"]) and isinstance(case["closings"][k], dict):
+                n = case["closings"][k]["sync"]       # fires inside its own subscribe
+                if n[0] == "C":
+                    return rx.empty()
+                if n[0] == "E":
+                    return rx.throw(InjectedError(n[1]))
+                from reactivex.subject import BehaviorSubject
+                return BehaviorSubject(fw.dec(n[1]))
             return hots[str(k + 1)] if str(k + 1) in hots else rx.never()
 
         f = ops.buffer_when if buffer else ops.window_when
@@ -257,6 +298,8 @@ def build(case, hots, sched, buffer):
             calls[0] += 1
             if case.get("raise_at") == k:
                 raise InjectedError(f"cm{k}")
+            if k < len(case["closings"]) and isinstance(case["closings"][k], dict):
+                return sync_obs(case["closings"][k]["sync"])
             return hots[str(k + 2)] if str(k + 2) in hots else rx.never()
 
         f = ops.buffer_toggle if buffer else ops.window_toggle
@@ -459,6 +502,9 @@ def model_request(case):
         r["shift"] = case["span"]
     if "closings" in case:
         r["pool"] = len(case["closings"])
+        if case["op"] in ("win_when", "win_toggle"):
+            r["sync"] = [None if not isinstance(c, dict) else ("fire" if c["sync"][0] in ("N", "C") else ["E", c["sync"][1]])
+                         for c in case["closings"]]
     if r.get("raise_at") is None:
         r.pop("raise_at", None)
     return r
@@ -740,6 +786,13 @@ def _win(t, cause):
 
 def spec_bound(case):
     ws, alive = [_win(T0, "init")], True
+    bs = case.get("bsync")
+    if bs == "N":
+        ws[-1]["end"] = (T0, ["C"], "init")
+        ws.append(_win(T0, "init"))
+    elif bs is not None:
+        ws[-1]["end"] = (T0, ["C"] if bs == "C" else bs, "init")
+        return ws
     for t, k, n in _static_events(case):
         if not alive:
             break
@@ -756,10 +809,31 @@ def spec_bound(case):
 
 
 def spec_when(case):
-    """when the closing selector raises, the open window and the outer sequence both end with that error."""
+    """a closing signal (first next / completion of the current closing observable) ends the window and opens the next; a
+    closing observable that fires inside its own subscribe does so at once; when the closing selector raises or a closing
+    errors, the open window and the outer sequence both end with that error."""
     ws, cur = [_win(T0, "init")], 0
-    if case.get("raise_at") == 0:
-        ws[-1]["end"] = (T0, ["E", "cm0"], "init")
+    cl = case["closings"]
+
+    def arm(t, cause):
+        """the closing for window `cur` is requested at time t; returns False when the operator is finished."""
+        nonlocal cur
+        while True:
+            if case.get("raise_at") == cur:
+                ws[-1]["end"] = (t, ["E", f"cm{cur}"], cause)
+                return False
+            if cur < len(cl) and isinstance(cl[cur], dict):
+                n = cl[cur]["sync"]
+                if n[0] == "E":
+                    ws[-1]["end"] = (t, n, cause)
+                    return False
+                ws[-1]["end"] = (t, ["C"], cause)
+                ws.append(_win(t, cause))
+                cur += 1
+                continue
+            return True
+
+    if not arm(T0, "init"):
         return ws
     for t, k, n in _static_events(case):
         if k == 0:
@@ -775,8 +849,7 @@ def spec_when(case):
             ws[-1]["end"] = (t, ["C"], "hot")
             ws.append(_win(t, "hot"))
             cur += 1
-            if case.get("raise_at") == cur:
-                ws[-1]["end"] = (t, ["E", f"cm{cur}"], "hot")
+            if not arm(t, "hot"):
                 break
     return ws
 
@@ -801,6 +874,15 @@ def spec_toggle(case):
                     for j in open_:
                         ws[j]["end"] = (t, ["E", f"cm{nopen}"], "hot")
                     return ws, t
+                cl = case["closings"]
+                if nopen < len(cl) and isinstance(cl[nopen], dict):     # the closing fires inside its own subscribe
+                    n2 = cl[nopen]["sync"]
+                    if n2[0] == "E":
+                        for j in open_:
+                            ws[j]["end"] = (t, n2, "hot")
+                        return ws, t
+                    ws[nopen]["end"] = (t, ["C"], "hot")
+                    del open_[nopen]
                 nopen += 1
             elif n[0] == "E":
                 for j in open_:
@@ -980,6 +1062,10 @@ def bucket(case, out):
     if "hang" in out:
         yield "hang"
         return
+    if case["op"] in ("win_when", "win_toggle") and any(isinstance(c, dict) for c in case["closings"]):
+        yield case["op"][4:] + ":closing fires inside subscribe"
+    if case.get("bsync") is not None:
+        yield "boundaries deliver inside subscribe"
     if case["op"] == "win_count":
         c, s = case["count"], case["skip"] or case["count"]
         yield "count:" + ("skip<count" if s < c else "skip>count" if s > c else "skip=count")
@@ -1019,6 +1105,7 @@ THEOREMS = [
     "C18.windows_end_with_source_when",
     "C18.windows_end_when_mapper_raises",
     "C18.when_mapper_raise_asis",
+    "C18.when_sync_closing_rotation",
     "C18.windows_end_with_source_time",
     "C18.windows_end_with_source_time_or_count",
     "C18.toggle_windows_end_partial",
@@ -1062,7 +1149,8 @@ RULE = ("six window operators (with_count, boundaries, when, toggle, with_time, 
         "(and, for the untimed operators, also cold-source) TestScheduler timelines: 0..20 elements incl. falsy values and same-instant arrivals, count/skip 1..N with skip<count, "
         "=count, >count, timespan/timeshift overlapping, equal and gapped (incl. span 0), boundary / opening / closing timelines placed "
         "at and around element instants with both creation orders (both tie orders), closings that fire by next, by completion, by "
-        "error or never, raising closing mappers, source C / E / no terminal / non-conforming tail, dispose at / around arrivals with "
+        "error, never, or INSIDE their own subscribe (empty(), BehaviorSubject, throw — window_when and toggle closings, and "
+        "boundaries), raising closing mappers, source C / E / no terminal / non-conforming tail, dispose at / around arrivals with "
         "and without disposing the window subscribers.  A recorder is subscribed to every emitted window inside the outer on_next. "
         "Compared: the full ordered timed log (outer + per-window notifications), the subscription intervals of every source, "
         "exceptions escaping into the scheduler, for the window and for the buffer operator.  non-trivial = at least two windows "
